@@ -62,6 +62,35 @@ def mergeTries (step : Bool) (blockSize : Nat) (ts : List Node) : Option (List N
   | _ =>
     (buildAll (writeBlocks blockSize (pending.flatMap (fun t => prefixIter step t [])))).map (fun r => big ++ r)
 
+/-- `TrieBucket.Suggest(prefix, limit)`: one prefix iterator per trie, merged by key
+(`mergedIterator`: a heap over the iterators' current keys), the first `limit` keys (at least one:
+the loop appends before it tests `len(rs) >= limit`) -/
+def bucketSuggest (step : Bool) (ts : List Node) (p : Key) (limit : Nat) : List Key :=
+  ((sortKVs (bucketPrefix step ts p)).map (·.1)).take (max limit 1)
+
+/-- `TrieBucket.FindValuesByLike(prefix, subKey, check)`: every trie, prefix iteration, filter -/
+def bucketFind (step : Bool) (ts : List Node) (p : Key) (check : Key → Bool) : List Nat :=
+  ((bucketPrefix step ts p).filter (fun kv => check kv.1)).map (·.2)
+
+/-! #### two WRONG shortcuts (for `Neg`): they assume the tries of a bucket form one sorted run -/
+
+/-- `GetValue` by bisecting on the tries' first keys: look only into the last trie whose first key
+is `≤ key` -/
+def bucketGetBisect (eon : Bool) (ts : List Node) (key : Key) : Option Nat :=
+  match (ts.filter (fun t => match (iter t).head? with
+      | some kv => !keyLt key kv.1
+      | none => false)).getLast? with
+  | some t => getNode eon t key
+  | none => none
+
+/-- prefix scan that stops at the first trie without a match -/
+def bucketPrefixStopEarly (step : Bool) : List Node → Key → List KV
+  | [], _ => []
+  | t :: ts, p =>
+    match prefixIter step t p with
+    | [] => []
+    | l => l ++ bucketPrefixStopEarly step ts p
+
 /-! ### one merger instance, many `Merge` calls (a kv compaction job) -/
 
 /-- one `Merge(bucketID, buckets)` call: the tries unmarshalled from the blocks of that key -/
